@@ -4,6 +4,8 @@ import JominiModel.Proofs.JsonRender
 import JominiModel.Proofs.JsonNarrow
 import JominiModel.Proofs.JsonDom
 import JominiModel.Proofs.JsonGroup
+import JominiModel.Spec.JsonDoc
+import JominiModel.Proofs.JsonDoc
 /-
 C16 — JSON conversion is valid JSON and carries the document's content.
 Only property theorems live here; helper lemmas are in `Proofs/Json*.lean`.
@@ -193,5 +195,65 @@ example :
     .ok (.obj [([97], .arr [.int 1, .int 3]), ([98], .int 2)]) := by rfl
 
 example : stableGroupBy (fun n : Nat => n % 2) [1, 2, 3, 4, 5] = [(1, [3, 5]), (2, [4])] := by rfl
+
+/-! ### content and totality
+
+`docAt t d` (decidable) says that the token list `t` IS the document tree `d`: every
+token and every end link in place (`Spec/JsonDoc.lean`).  `WfTape t := ∃ d, docAt t d`;
+`wfTapeB` decides a sufficient condition (it searches the tree with `docOf` and checks the
+answer with `docAt`).  The driver evaluates `wfTapeB` on every tape the real parser produced
+in the check (op `wf`: 4 000+ tapes per quick run, all well-formed), which is how the
+hypothesis is tied to C06's conclusion until that is proved. -/
+
+/-- Content (whole document): on a token list that is the tree `d`, the conversion succeeds
+and yields `jsonOfDoc d` — every key and value in document order, scalars narrowed by
+`narrowScalar` (C16_narrowing), operators and headers as single-entry objects, duplicate keys
+kept / grouped / paired per the option (`entriesByMode`; Group = `stableGroupBy`), mixed
+containers' trailing part under `"remainder"` — for all options and both encodings. -/
+theorem C16_content (o : Opts) (enc : Enc) (t : Tape) (d : Doc) (h : docAt t d = true) :
+    toJson o enc .obj t = .ok (some (jsonOfDoc o enc d)) :=
+  toJson_obj_doc o enc t d h
+
+/-- Content (value entry point): `value.json()` of the first field's value is `jsonOf` of
+that value (`none` when the document has no first field). -/
+theorem C16_content_value (o : Opts) (enc : Enc) (t : Tape) (d : Doc) (h : docAt t d = true) :
+    toJson o enc .val t = .ok (firstValueJson o enc d) :=
+  toJson_val_doc o enc t d h
+
+/-- Totality: on a well-formed tape no `unwrap`, index, `debug_assert!` or overflow check of
+the object and value entry points fails and no loop runs away (neither `panic` nor `hang`),
+for all options and both encodings. -/
+theorem C16_total (t : Tape) (h : WfTape t) (o : Opts) (enc : Enc) :
+    (∃ v, toJson o enc .obj t = .ok (some v)) ∧ (∃ r, toJson o enc .val t = .ok r) := by
+  obtain ⟨d, hd⟩ := h
+  exact ⟨⟨_, toJson_obj_doc o enc t d hd⟩, ⟨_, toJson_val_doc o enc t d hd⟩⟩
+
+/-- the decidable form of the hypothesis -/
+theorem C16_total_decidable (t : Tape) (h : wfTapeB t = true) (o : Opts) (enc : Enc) :
+    (∃ v, toJson o enc .obj t = .ok (some v)) ∧ (∃ r, toJson o enc .val t = .ok r) :=
+  C16_total t (wfTapeB_sound t h) o enc
+
+/- FULL STATEMENT (not proved for one shape): the array entry point `value.read_array()?.json()`
+is total too, for every well-formed tape:
+    theorem C16_total_arr (t) (h : WfTape t) (o enc) : ∃ r, toJson o enc .arr t = .ok r
+Proved below except when the first field's value is an OBJECT (`read_array()` then views the
+object's `key [op] value` tokens as a value list, or — flag `mixed` — searches the
+`MixedContainer` token): that shape needs the fields-as-items view of an object, which is
+not built.  The missing case is covered by the correspondence check and the no-panic oracle
+only (`entry:arr` cases, `x-json-all`). -/
+/-- Totality and content of the array entry point when the first value is not an object. -/
+theorem C16_total_arr_partial (t : Tape) (d : Doc) (h : docAt t d = true) (hno : firstIsObject d = false)
+    (o : Opts) (enc : Enc) :
+    toJson o enc .arr t = .ok (firstArrayJson o enc d) :=
+  toJson_arr_doc o enc t d h hno
+
+/-- hypotheses satisfiable: `a={1 b>2} a=x` is a tree, and its Group-mode JSON is
+`{"a":[[1,{"b":{"GREATER_THAN":2}}],"x"]}` -/
+example : wfTapeB #[.unquoted [97], .array 6 true, .unquoted [49], .unquoted [98], .op .gt, .unquoted [50],
+    .end_ 1, .unquoted [97], .unquoted [120]] = true := by decide +kernel
+example : toJson ⟨false, .group, .all⟩ .utf8 .obj
+    #[.unquoted [97], .array 6 true, .unquoted [49], .unquoted [98], .op .gt, .unquoted [50],
+      .end_ 1, .unquoted [97], .unquoted [120]] =
+    .ok (some (.obj [([97], .arr [.arr [.int 1, .obj [([98], .obj [(Op.gt.name, .int 2)])]], .str [120]])])) := by rfl
 
 end Jomini.Props.C16
